@@ -34,7 +34,7 @@ def shape_signature(case):
             if "bytes" in p:
                 pend = "bytes"
             else:
-                last = [ln for ln in p["lines"]][-1]
+                last = [ln for ln in p["lines"] if "raw" not in ln][-1]
                 pend = "label" if "l" in last else (
                     "bytes" if last.get("k") == "bytes" else
                     vocab.VOCAB[isa][last["k"]]["kind"])
